@@ -110,6 +110,26 @@ pub fn structured(n: usize, r: &mut StdRng) -> Vec<Vec<usize>> {
         let c = r.gen_range(0..6);
         out.push(on_from_fn(n, |x| (x >> a) & 1 == 1 && (((x >> b) & 1) ^ ((x >> c) & 1)) == 1));
     }
+    if n >= 2 {
+        // a function of the TOP variables only (the low ones are dummies): unions of aligned index intervals
+        let m = r.gen_range(1..n);
+        let g = random_on(m, r);
+        out.push(on_from_fn(n, |x| g.binary_search(&(x >> (n - m))).is_ok()));
+    }
+    // thermometer tables (the k lowest assignments true), and a thermometer low block under dense /
+    // random upper blocks: the numerically smallest tables with a given number of minterms
+    {
+        let k = r.gen_range(0..=d);
+        out.push((0..k).collect());
+        if d > 64 {
+            let k = r.gen_range(1..64);
+            let hi = random_on(n, r);
+            out.push(on_from_fn(n, |m| if m < 64 { m < k } else { hi.binary_search(&m).is_ok() }));
+            let k2 = r.gen_range(32..64);
+            let holes = sparse_on(n, r, 2 * k2);
+            out.push(on_from_fn(n, |m| if m < 64 { m < k2 } else { holes.binary_search(&m).is_err() }));
+        }
+    }
     out.push(random_on(n, r));
     out.push(random_on(n, r));
     out.push(sparse_on(n, r, 3));
